@@ -52,9 +52,42 @@ def _contains(v, x, depth=0):
     return any(isinstance(y, tuple) and _contains(y, x, depth + 1) for y in v)
 
 
+def _ty_matches(pat, ty, depth=0):
+    """does the concrete type `ty` match the impl's self type `pat` (type parameters of the impl match anything)?"""
+    if pat is None or ty is None or depth > 6:
+        return pat is None
+    if pat.get('k') == 'param':
+        return True
+    if pat.get('k') != ty.get('k'):
+        return False
+    if pat.get('k') == 'adt':
+        if pat.get('path') != ty.get('path'):
+            return False
+        pa, ta = pat.get('args') or [], ty.get('args') or []
+        return len(pa) == len(ta) and all(_ty_matches(x, y, depth + 1) for x, y in zip(pa, ta))
+    if pat.get('k') in ('ref', 'ptr'):
+        return _ty_matches(pat.get('ty'), ty.get('ty'), depth + 1)
+    return True
+
+
+def strip_generics_(p):
+    out, depth = [], 0
+    for ch in p:
+        if ch == '<':
+            depth += 1
+        elif ch == '>':
+            depth -= 1
+        elif depth == 0:
+            out.append(ch)
+    return ''.join(out).replace('::::', '::').rstrip(':')
+
+
+NODE_ADTS_ = ('intrusive_double_linked_list::ListNode', 'intrusive_pairing_heap::HeapNode')
+
+
 class St:
     __slots__ = ('store', 'facts', 'events', 'trace', 'nframe', 'neid', 'stack', 'visits', 'pruned',
-                 'qinfo', 'frame_fn')
+                 'qinfo', 'frame_fn', 'frame_subst', 'pending_subst')
 
     def __init__(self):
         self.store = {}
@@ -68,6 +101,8 @@ class St:
         self.pruned = 0
         self.qinfo = {}
         self.frame_fn = {}
+        self.frame_subst = {}      # frame -> {generic parameter name: type it stands for in this inlined instance}
+        self.pending_subst = None
 
     def copy(self):
         s = St()
@@ -82,6 +117,8 @@ class St:
         s.pruned = self.pruned
         s.qinfo = {k: dict(v) for k, v in self.qinfo.items()}
         s.frame_fn = dict(self.frame_fn)
+        s.frame_subst = dict(self.frame_subst)
+        s.pending_subst = self.pending_subst
         return s
 
     def eid(self):
@@ -363,6 +400,10 @@ class Engine:
                 return ('fn', op['fn']['path'])
             if op.get('ty') == '()':
                 return UNIT
+            if op.get('const_item'):
+                v = self.eval_const_item(st, frame, op['const_item'], c)
+                if v is not None:
+                    return v
             m = re.match(r'^(.*)::(None)$', c)
             if c.endswith('::None') and 'Option' in c:
                 return NONE
@@ -371,6 +412,49 @@ class Engine:
             # RuntimeChecks (ub / overflow checks): treated as enabled, never decisive
             return ('const', 'rt:' + op['rt'])
         return ('unk', repr(op)[:40])
+
+    def eval_const_item(self, st, frame, item, text):
+        """value of a constant item of the crate: a free `const`, or `<X as Trait>::C` where the type X stands for is
+        known in this frame (its own impl's constant, else the trait's default); evaluated from the initialiser's MIR"""
+        consts = self.F.raw.get('consts') or []
+        name = item.rsplit('::', 1)[-1]
+        cands = [c for c in consts if c['path'] == item and not c.get('in_trait')]
+        if not cands:
+            decl = [c for c in consts if c['path'] == item and c.get('in_trait')]
+            tr = decl[0]['in_trait'] if decl else item.rsplit('::', 1)[0]
+            m = re.match(r'^<([A-Za-z_][A-Za-z0-9_]*) as ', text or '')
+            selfty = None
+            if m:
+                selfty = (st.frame_subst.get(frame) or {}).get(m.group(1))
+            impls = [c for c in consts if c.get('impl_trait') == tr and c['name'] == name]
+            if selfty and selfty.get('k') == 'adt':
+                cands = [c for c in impls if c.get('impl_adt') == selfty.get('path')]
+            elif len(impls) == 1 and not decl:
+                cands = impls
+            if not cands and decl and decl[0].get('blocks') and (selfty is not None or not impls):
+                cands = decl     # the trait's own default value
+        if len(cands) != 1 or not cands[0].get('blocks'):
+            return None
+        cb = cands[0]
+        st.nframe += 1
+        pframe = st.nframe
+        st.frame_fn[pframe] = {'path': cb['path'], 'blocks': cb['blocks'], 'promoted': []}
+        bbi = 0
+        for _ in range(16):
+            bb = cb['blocks'][bbi]
+            for s_ in bb['stmts']:
+                if s_['k'] == 'assign':
+                    v = self.eval_rvalue(st, pframe, s_['rv'])
+                    self.write(st, self.eval_place(st, pframe, s_['place']), v)
+            t = bb['term']
+            if t['k'] == 'goto':
+                bbi = t['t']
+                continue
+            if t['k'] == 'assert':     # overflow checks of constant arithmetic
+                bbi = t['t']
+                continue
+            break
+        return self.read(st, (('L', pframe, 0),))
 
     def eval_promoted(self, st, frame, idx):
         fn = st.frame_fn.get(frame)
@@ -490,6 +574,13 @@ class Engine:
                 args.append(('ref', (('P', name),)))
             elif ty['k'] == 'adt' and ty['path'] == 'std::pin::Pin' and ty['args'] and ty['args'][0]['k'] == 'ref':
                 args.append(('pin', ('ref', (('P', name),))))
+            elif self._bundle_fields(ty) is not None:
+                # a private struct that bundles the arguments which travel together (`PollCtx { node, cx }`): its
+                # reference-typed fields are named like parameters, so the own node inside is the own node
+                args.append(self._bundle_value(ty))
+            elif ty['k'] == 'ref' and self._bundle_fields(ty.get('ty') or {}) is not None:
+                st.store[(('P', name),)] = self._bundle_value(ty['ty'])
+                args.append(('ref', (('P', name),)))
             elif ty['k'] == 'adt' and ty['path'].startswith('lock_api::') and ty['path'].endswith('MutexGuard'):
                 # a private helper that is handed the already acquired guard: it runs under the caller's lock
                 args.append(('guard', (('P', name),)))
@@ -520,6 +611,65 @@ class Engine:
                 break
         return out
 
+    def _subst_ty(self, st, frame, ty):
+        if ty and ty.get('k') == 'param':
+            return (st.frame_subst.get(frame) or {}).get(ty.get('name'), ty)
+        return ty
+
+    def _devirtualise(self, st, frame, ci):
+        """(function, substitution) for a call of a crate trait's method on a type parameter whose instance this frame
+        knows; the type's own impl of the method, else the trait's provided method with Self := that type; with a single
+        implementor in the crate that one is taken whatever the frame knows"""
+        tr, name = ci.get('trait'), ci['name']
+        g = ci.get('gargs') or []
+        selfty = self._subst_ty(st, frame, g[0]) if g else None
+        impls = [f for f in self.F.raw['fns'] if f.get('impl_trait') == tr and f.get('name') == name]
+        default = [f for f in self.F.raw['fns'] if f.get('in_trait') == tr and f.get('name') == name]
+        if selfty and selfty.get('k') == 'adt':
+            mine = [f for f in impls if f.get('impl_adt') == selfty.get('path')]
+            if len(mine) > 1:
+                # several impls for the same type constructor (`Option<&A>` and `Option<Arc<A>>`): match the arguments
+                mine = [f for f in mine if _ty_matches((self.F.impl_by_id.get(f.get('impl')) or {}).get('self_ty'), selfty)]
+            if len(mine) == 1:
+                return mine[0], None
+            if not mine and len(default) == 1:
+                return default[0], {'Self': selfty}
+        if len(impls) == 1 and not default:
+            return impls[0], None
+        implementors = set(f.get('impl_adt') for f in self.F.raw['fns'] if f.get('impl_trait') == tr)
+        if len(implementors) == 1 and len(default) == 1 and not impls:
+            a = self.F.adts.get(list(implementors)[0])
+            return default[0], {'Self': {'k': 'adt', 'path': a['path'], 'local': True, 'args': [], 'str': a['path']}} if a else None
+        return None, None
+
+    def _bundle_fields(self, ty):
+        """fields of a crate-local struct that carries a `&mut ListNode<..>` / `&mut HeapNode<..>` (an argument
+        bundle), else None"""
+        if not ty or ty.get('k') != 'adt' or not ty.get('local'):
+            return None
+        a = self.F.adts.get(ty['path'])
+        if not a or a['kind'] != 'struct' or ty['path'] in NODE_ADTS_:
+            return None
+        fields = a['variants'][0]['fields']
+        if any(f['ty'].get('k') == 'ref' and (f['ty'].get('ty') or {}).get('k') == 'adt'
+               and f['ty']['ty'].get('path') in NODE_ADTS_ for f in fields):
+            return fields
+        return None
+
+    def _bundle_value(self, ty):
+        vals = []
+        for f in self._bundle_fields(ty):
+            ft = f['ty']
+            if ft.get('k') in ('ref', 'ptr'):
+                v = ('ref', (('P', f['name']),))
+            elif ft.get('k') == 'adt' and ft.get('path') == 'std::pin::Pin' and ft.get('args') and ft['args'][0].get('k') == 'ref':
+                v = ('pin', ('ref', (('P', f['name']),)))
+            else:
+                v = ('param', f['name'])
+            vals.append((f['name'], v))
+        a = self.F.adts[ty['path']]
+        return ('agg', ty['path'], a['variants'][0]['name'], tuple(vals))
+
     def _public_shape(self, fn, st, rv):
         """the return value of a function that reports through a private outcome enum, converted the way the crate
         itself converts it (see rl.outcome_decoders); anything else is returned unchanged"""
@@ -545,6 +695,8 @@ class Engine:
         if sh is None:
             return rv
         pv, inner = sh
+        if pv == 'bool':
+            return ('const', inner)
         if pv == 'Pending':
             return ('agg', POLL, 'Pending', ())
         vals = [x for _, x in rv[3]]
@@ -561,6 +713,9 @@ class Engine:
         frame = st.nframe
         st.stack = st.stack + (fn['path'],)
         st.frame_fn[frame] = fn
+        if st.pending_subst:
+            st.frame_subst[frame] = st.pending_subst
+            st.pending_subst = None
         for i, v in enumerate(args):
             st.store[(('L', frame, i + 1),)] = v
         st.events.append({'k': 'enter', 'fn': fn['path'], 'frame': frame, 'args': tuple(args)})
@@ -720,6 +875,7 @@ class Engine:
         ci['rlocal'] = bool(r and r['local']) or (ci['krate'] == 'futures_intrusive' and not ci.get('trait'))
         ci['radt'] = (r or {}).get('impl_adt') or ci.get('impl_adt')
         ci['rtrait'] = (r or {}).get('impl_trait') or ci.get('impl_trait') or ci.get('trait')
+        ci['resolved_gargs'] = (r or {}).get('gargs') or []
         return ci
 
     def do_call(self, fn, frame, st, t):
@@ -759,7 +915,32 @@ class Engine:
             return
         # 2. inlining
         callee = self.F.fn(ci['rpath']) if ci['rlocal'] else None
+        if callee is None and ci.get('trait') in self.F.traits and not ci.get('rlocal'):
+            # a call on a generic `Self` / `E: Trait` inside a provided trait method or a generic helper: which type the
+            # parameter stands for is known from the instance this frame was inlined as
+            callee, sub = self._devirtualise(st, frame, ci)
+            if callee is not None and self._may_inline(st, ci, callee):
+                st.pending_subst = sub
+                self.stats['inlined_calls'] += 1
+                eid = st.eid()
+                st.events.append({'k': 'call', 'callee': callee['path'], 'name': ci['name'], 'args': tuple(args),
+                                  'ret': None, 'eid': eid, 'fn': fn['path'], 'ln': t['ln'], 'frame': frame,
+                                  'ci': ci, 'mode': 'inline', 'argtys': t['argtys']})
+                for st2, rv in self.run_fn(callee, args, st):
+                    if rv is PANIC:
+                        yield st2, False
+                    else:
+                        st2.events.append({'k': 'ret', 'callee': callee['path'], 'name': ci['name'], 'ret': rv,
+                                           'eid': eid, 'fn': fn['path'], 'ln': t['ln'], 'frame': frame})
+                        self._write_ev(st2, fn, frame, dest, rv, t['ln'])
+                        yield st2, True
+                return
+            callee = None
         if callee is not None and self._may_inline(st, ci, callee):
+            gn = callee.get('generics') or []
+            rg = (ci.get('resolved_gargs') or [])
+            if gn and len(gn) == len(rg):
+                st.pending_subst = {n: self._subst_ty(st, frame, g) for n, g in zip(gn, rg)}
             self.stats['inlined_calls'] += 1
             eid = st.eid()
             st.events.append({'k': 'call', 'callee': ci['rpath'], 'name': ci['name'], 'args': tuple(args),
@@ -1025,6 +1206,13 @@ class Engine:
                 return [(st, args[0])]
             if dty.startswith('std::option::Option<') and dty == 'std::option::Option<%s>' % aty:
                 return [(st, some(args[0]))]
+            # `x.into()` where the crate implements `From<X> for Y`: std's blanket Into calls that impl
+            if name == 'into':
+                base = dty.split('<', 1)[0]
+                froms = [f_ for f_ in self.F.raw['fns'] if f_.get('name') == 'from' and f_.get('impl_adt') == base
+                         and (f_.get('impl_trait') or '').endswith('convert::From')]
+                if len(froms) == 1 and froms[0]['path'] not in st.stack:
+                    return [(st2, rv) for st2, rv in self.run_fn(froms[0], list(args), st)]
         # ---- calling a closure / fn item that was passed around as a value: <F as Fn*>::call*(f, (args..))
         if name in ('call', 'call_mut', 'call_once') and len(args) == 2 and 'ops::Fn' in (ci.get('trait') or '') + path:
             f = args[0]
@@ -1326,6 +1514,25 @@ class Engine:
                 else:
                     outs.append((st2, ('agg', RESULT, variant, (('0', inner),))))
             return outs
+        if path.startswith('std::result::Result') and name in ('map_or', 'map_or_else', 'and_then', 'or_else') and len(args) >= 2:
+            outs = []
+            for st2, variant, inner in self._enum_split(st, args[0], RESULT, ('Ok', 'Err')):
+                if name == 'map_or':
+                    if variant == 'Ok':
+                        for st3, rv in self.call_closure(st2, args[2], [inner]):
+                            outs.append((st3, rv))
+                    else:
+                        outs.append((st2, args[1]))
+                elif name == 'map_or_else':
+                    f_ = args[2] if variant == 'Ok' else args[1]
+                    for st3, rv in self.call_closure(st2, f_, [inner]):
+                        outs.append((st3, rv))
+                elif (name == 'and_then') == (variant == 'Ok'):
+                    for st3, rv in self.call_closure(st2, args[1], [inner]):
+                        outs.append((st3, rv))
+                else:
+                    outs.append((st2, ('agg', RESULT, variant, (('0', inner),))))
+            return outs
         if path.startswith('std::task::Poll') and name == 'map':
             outs = []
             for st2, variant, inner in self._enum_split(st, args[0], POLL, ('Ready', 'Pending')):
@@ -1472,6 +1679,20 @@ class Engine:
         if clo[0] == 'fn':
             fpath = clo[1]
             callee = self.F.fn(fpath)
+            # a tuple-struct / tuple-variant constructor used as a function (`.map_err(ChannelSendError)`)
+            base = strip_generics_(fpath)
+            if callee is None and base in self.F.adts and self.F.adts[base]['kind'] == 'struct':
+                a_ = self.F.adts[base]
+                yield st, ('agg', base, a_['variants'][0]['name'],
+                           tuple((f['name'], v) for f, v in zip(a_['variants'][0]['fields'], params)))
+                return
+            if callee is None and '::' in base and base.rsplit('::', 1)[0] in self.F.adts:
+                a_ = self.F.adts[base.rsplit('::', 1)[0]]
+                var = [v_ for v_ in a_['variants'] if v_['name'] == base.rsplit('::', 1)[1]]
+                if a_['kind'] == 'enum' and var:
+                    yield st, ('agg', a_['path'], var[0]['name'],
+                               tuple((f['name'], v) for f, v in zip(var[0]['fields'], params)))
+                    return
             if callee is not None and fpath not in st.stack and len(st.stack) < self.max_depth + 2:
                 eid = st.eid()
                 frame0 = st.nframe
@@ -1487,6 +1708,24 @@ class Engine:
                     yield st2, rv
                 return
             short = fpath.split('::')[-1]
+            # a std predicate passed as a function (`drive(.., Poll::is_ready, ..)`, `.filter(Option::is_some)`)
+            preds = {'is_ready': ('Ready', POLL), 'is_pending': ('Pending', POLL), 'is_some': ('Some', OPTION),
+                     'is_none': ('None', OPTION)}
+            if short in preds and params and (('Poll' in fpath) == (preds[short][1] == POLL)):
+                v = params[0]
+                for _ in range(2):
+                    if v[0] == 'ref':
+                        v = self.read(st, v[1])
+                want, enum = preds[short]
+                if v[0] == 'agg':
+                    yield st, ('const', int(v[2] == want))
+                    return
+                k = self.variant_known(st, v)
+                if k and k[0] == 'eq':
+                    yield st, ('const', int(k[1] == want))
+                    return
+                yield st, ('isv', v, want, enum)
+                return
             if fpath.endswith('Waker::wake') or fpath.endswith('Waker::wake_by_ref'):
                 w = params[0]
                 if short == 'wake_by_ref' and w[0] == 'ref':
@@ -1525,6 +1764,15 @@ class Engine:
         else:
             a0 = env_val
         args = [a0] + list(params)
+        # a closure written inside a generic function sees that function's type parameters: it inherits the instance
+        # of the (latest) frame of the function it was written in
+        parent = body.get('parent')
+        while parent and (self.F.fn(parent) or {}).get('kind') == 'closure':
+            parent = self.F.fn(parent).get('parent')
+        for f_ in sorted(st.frame_subst, reverse=True):
+            if (st.frame_fn.get(f_) or {}).get('path') == parent:
+                st.pending_subst = st.frame_subst[f_]
+                break
         # closures take their params as a single tupled argument only at the
         # Fn* trait boundary; the MIR body has them as separate locals.
         yield from self.run_fn(body, args, st)
